@@ -19,7 +19,8 @@ func init() { Registry["C04"] = C04_Run }
 //                   skip (tests not run, destination untouched); present-but-falsy values
 //                   (0, false, zero time) are present in Parse and absent in Validate
 
-func C04_Jobs() []string {
+func C04_Jobs() []string { return append(c04_jobs0(), "json-records") }
+func c04_jobs0() []string {
 	var out []string
 	for _, k := range []string{"int", "str", "bool", "slice", "ptr", "structfield"} {
 		out = append(out, "ws/"+k)
@@ -707,6 +708,10 @@ func c04Extra(kind, mode string) {
 }
 
 func C04_Run(job string) {
+	if job == "json-records" {
+		jrCheck("C04")
+		return
+	}
 	a, b, c, d := split3(job)
 	if a == "default-items" || a == "struct-input" || a == "absent-items" || a == "empty-composites" || a == "zero-instant" || a == "validate-blank-and-negzero" {
 		c04Extra(a, b)
